@@ -700,7 +700,7 @@ func (m *LifeMon) onReturn(c *eng.Ctx, s lifeState, ev *eng.Event, batch bool) {
 	}
 	ck("C20.R3", !s.waited || s.cut, "a wait follows the last exec attempt (before returning) and the run was not cut short by a cancellation observed after it")
 	if batch && s.nPrep == 1 && knownNil(c, s.prepErr) {
-		ck("C06.R10", s.nPost == 1, fmt.Sprintf("a batch run whose prep succeeded returns after %d post calls (want exactly one: post sees the settled items once, whatever happened to them)", s.nPost))
+		ck("C06.R10,C11.R7", s.nPost == 1, fmt.Sprintf("a batch run whose prep succeeded returns after %d post calls (want exactly one: post sees the settled items once, whatever happened to them)", s.nPost))
 	}
 	if !batch && (s.last == "Exec" || s.last == "Fb") {
 		// the run ends right after the exec phase without post: only legal when that phase is known to have failed
